@@ -252,13 +252,16 @@ class BerlekampMasseyDecoder(BaseBlockDecoder[Union[BCHCodeEncoder, ReedSolomonC
 
         # Process blockwise
         def decode_block(r_block):
-            batch_size = r_block.shape[0]
+            # r_block has shape (..., blocks, n): decode every length-n word on its own, whatever
+            # the leading batch dimensions and the number of blocks per row
+            words = r_block.reshape(-1, self.code_length)
+            batch_size = words.shape[0]
             decoded = torch.zeros(batch_size, self.code_dimension, dtype=received.dtype, device=received.device)
-            errors = torch.zeros_like(r_block)
+            errors = torch.zeros_like(words)
 
             for i in range(batch_size):
                 # Get the current received word
-                r = r_block[i].view(-1)  # Flatten to 1D tensor for batch processing
+                r = words[i]
 
                 # Convert to field elements - convert each bit individually
                 r_field = []
@@ -300,6 +303,8 @@ class BerlekampMasseyDecoder(BaseBlockDecoder[Union[BCHCodeEncoder, ReedSolomonC
                 # Extract message bits from the corrected codeword
                 decoded[i] = self.encoder.extract_message(corrected)
 
+            decoded = decoded.reshape(*r_block.shape[:-1], self.code_dimension)
+            errors = errors.reshape(r_block.shape)
             return (decoded, errors) if return_errors else decoded
 
         # Apply decoding blockwise
